@@ -142,6 +142,17 @@ func seqOps() []seqOp {
 		{"catch-neg", blk(&fl.Let{Name: "r", Init: &fl.Catch{X: fl.C("seq_mk", &fl.Un{Op: "-", X: fl.B("*", x, x)}), ErrName: "e", Handler: []fl.Stmt{fl.P(fl.V("e")), as(y, l(0))}, Fallback: l(1)}},
 			&fl.OpAssign{Op: "+=", LHS: x, RHS: fl.V("r")})},
 		{"x=fact(4)", one(as(x, fl.B("-", x, fl.C("seq_fact", l(4)))))},
+		// an index variable of their own, assigned in one alternative and used in another: each
+		// alternative starts from what was known before the construct
+		{"elseif-idx", blk(&fl.Let{Name: "jj", T: i32, Init: l(0)}, &fl.If{Cond: fl.B(">", x, l(1000)), Then: []fl.Stmt{as(fl.V("jj"), l(2)), as(y, fl.Ix(a, fl.V("jj")))},
+			Else: []fl.Stmt{&fl.If{Cond: fl.B(">", x, l(-1000)), Then: []fl.Stmt{as(y, fl.B("+", y, fl.Ix(a, fl.V("jj"))))}, Else: []fl.Stmt{as(fl.V("jj"), l(1)), as(y, fl.Ix(a, fl.V("jj")))}}}})},
+		{"match-idx", blk(&fl.Let{Name: "jj", T: i32, Init: l(2)}, &fl.Match{Subj: x, Arms: []fl.Arm{{Pat: l(4), Body: []fl.Stmt{as(fl.V("jj"), l(0)), as(y, fl.Ix(a, fl.V("jj")))}},
+			{Pat: l(5), Body: []fl.Stmt{as(fl.Ix(a, fl.V("jj")), fl.B("+", fl.Ix(a, fl.V("jj")), l(1)))}}, {Body: []fl.Stmt{as(y, fl.B("-", fl.Ix(a, fl.V("jj")), l(1)))}}}})},
+		{"else-idx", blk(&fl.Let{Name: "jj", T: i32, Init: l(1)}, &fl.If{Cond: fl.B(">", y, x), Then: []fl.Stmt{as(fl.V("jj"), l(2)), as(fl.Ix(a, fl.V("jj")), x)}, Else: []fl.Stmt{as(fl.Ix(a, fl.V("jj")), y)}})},
+		// ... and one whose value is not known before the construct (x % 2 is -1, 0 or 1: always
+		// inside d, which never shrinks below two elements)
+		{"else-dyn-idx", blk(&fl.Let{Name: "jj", T: i32, Init: fl.B("%", x, l(2))}, &fl.If{Cond: fl.B(">", y, l(100000)), Then: []fl.Stmt{as(fl.V("jj"), l(5)), fl.P(fl.V("jj"))},
+			Else: []fl.Stmt{as(fl.Ix(d, fl.V("jj")), fl.B("+", fl.Ix(d, fl.V("jj")), l(1))), as(y, fl.Ix(d, fl.V("jj")))}})},
 		{"print-bool", one(fl.P(fl.B("&&", fl.B(">", x, y), fl.B("<", b, fl.L(u8, 100)))))},
 	}
 }
